@@ -130,8 +130,8 @@ type cst struct {
 	det     bool
 	// everUnordered / sumAggs are shared through the pointer fields below
 	shared *cshared
-	feats   map[string]bool
-	ok      bool // false: contains something that cannot run on a supplied input
+	feats  map[string]bool
+	ok     bool // false: contains something that cannot run on a supplied input
 }
 
 type cshared struct {
